@@ -37,6 +37,10 @@ def gen_build_history(rng, latlon, mag, sqlite_features=True, queries=("nodes", 
                       n=None, safe_commit_p=0.8):
     n = n or rng.randint(2, 9)
     pts = gen_points(rng, n, mag, latlon)
+    if n >= 3 and rng.random() < 0.15:
+        # two nodes with different labels at the same place (a zero-length road between them)
+        i, j = rng.sample(range(n), 2)
+        pts[j] = pts[i]
     # dedupe coincident nodes most of the time
     labels = rng.sample(range(0, 60), n) if rng.random() < 0.7 else rng.sample(range(1, 10 ** 9), n)
     ops = []
@@ -94,6 +98,10 @@ def gen_build_history(rng, latlon, mag, sqlite_features=True, queries=("nodes", 
     if sqlite_features and rng.random() < 0.1 and cand_edges:
         a, b = rng.choice(cand_edges)
         ops.append({"op": "add_edge", "a": labels[a], "b": labels[b]})   # duplicate, ignored
+    if rng.random() < 0.3:
+        # a loader that declares a node again after its roads were added (same label, same location)
+        i = rng.randrange(n)
+        ops.append({"op": "add_node", "label": labels[i], "loc": list(pts[i]), "ignore_doubles": True})
     if any(o.get("no_index") for o in ops if o["op"] in ("add_edge", "add_edges")) and rng.random() < 0.9:
         ops.append({"op": "reindex_edges"})
     if sqlite_features and rng.random() < safe_commit_p:
